@@ -102,3 +102,9 @@ package rep
 //@   before select#1 assert expireTime > 0 ==> timer_d(wq) == expireTime
 //@   before select#1 assert expireTime <= 0 ==> wq == nilQ
 //@   ensures sel("select#1") == 1 ==> result0 == nil && result1 == protocol.ErrRecvTimeout
+//@
+//@ func (*socket).OpenContext
+//@   ghost cl = s.closed at call:Lock#1
+//@   ensures cl ==> isnil(result0) && result1 == protocol.ErrClosed
+//@   ensures !cl ==> isnil(result1) && cast("*context", result0).s == s && has(s.contexts, cast("*context", result0)) && !cast("*context", result0).closed
+//@   ensures !cl ==> cast("*context", result0).recvPipe == nil && isnil(cast("*context", result0).backtrace) && !cast("*context", result0).recvWait
